@@ -86,7 +86,8 @@ def st(name):
 def cases(tier, seed):
     out = [('restricted_T3', dict(kind='restricted', T=3)), ('values_explicit_end', dict(kind='values', T=3, form='explicit')),
            ('values_implicit_end', dict(kind='values', T=3, form='implicit')), ('values_single_start', dict(kind='values', T=3, form='single')),
-           ('values_one_interval_scalar', dict(kind='values', T=3, form='scalar')), ('gridded_prices_pass_through', dict(kind='prices'))]
+           ('values_one_interval_scalar', dict(kind='values', T=3, form='scalar')),
+           ('values_implicit_end_three_starts', dict(kind='values', T=2, form='implicit3')), ('gridded_prices_pass_through', dict(kind='prices'))]
     if tier == 'thorough':
         out.append(('restricted_T4', dict(kind='restricted', T=4)))
     for cid, kw in COARSE:
@@ -412,6 +413,11 @@ def run_values(rec, seed, T, form):
         s = [st('s0'), st('s1')]; v = [Sym.var('v0'), Sym.var('v1')]
         mk = lambda: {'start': list(s), 'values': list(v)}
         ends = [s[1].e, s[1].e + 2 * (s[1].e - s[0].e)]
+    elif form == 'implicit3':
+        # three starts, unevenly spaced: the last interval is open-ended "generously" by twice the LAST gap (as implemented and documented in the code)
+        s = [st('s0'), st('s1'), st('s2')]; v = [Sym.var('v0'), Sym.var('v1'), Sym.var('v2')]
+        mk = lambda: {'start': list(s), 'values': list(v)}
+        ends = [s[1].e, s[2].e, s[2].e + 2 * (s[2].e - s[1].e)]
     elif form == 'single':
         s = [st('s0')]; v = [Sym.var('v0')]
         mk = lambda: {'start': list(s), 'values': list(v)}
@@ -507,7 +513,21 @@ def run_prices(rec, seed):
         ok = list(out.index) == list(tg.timepoints) and all(out['p'].values[i] is p[i] and out['q'].values[i] is q[i] for i in range(4))
         out2 = tg.prices_to_grid(out)            # a DataFrame that already carries the grid as index
         ok2 = list(out2.index) == list(tg.timepoints) and all(out2['p'].values[i] is p[i] for i in range(4))
-        for nm, o in (('arrays_unchanged/%s' % tz, ok), ('gridded_frame_unchanged/%s' % tz, ok2)):
+        # already gridded data in further containers: DataFrames / dicts of Series with a numeric index that is not the default RangeIndex
+        more = []
+        for label, mkdata in (('frame_int_index', lambda: pd.DataFrame({'p': p, 'q': q}, index=np.arange(4))),
+                              ('frame_float_index', lambda: pd.DataFrame({'p': p, 'q': q}, index=np.arange(4) * 1.0)),
+                              ('frame_rows_selected_by_mask', lambda: pd.DataFrame({'p': list(p) + [0.0], 'q': list(q) + [0.0]})[np.array([True] * 4 + [False])]),
+                              ('dict_of_lists', lambda: {'p': list(p), 'q': list(q)})):
+            try:
+                o3 = tg.prices_to_grid(mkdata())
+                ok3 = list(o3.index) == list(tg.timepoints) and all(o3['p'].values[i] is p[i] and o3['q'].values[i] is q[i] for i in range(4))
+            except sym.Realisation:
+                raise
+            except Exception as ex:  # noqa: BLE001
+                ok3 = False
+            more.append(('%s_unchanged/%s' % (label, tz), ok3))
+        for nm, o in [('arrays_unchanged/%s' % tz, ok), ('gridded_frame_unchanged/%s' % tz, ok2)] + more:
             rec.obligations.append(dict(name=nm, verdict='unsat' if o else 'sat', secs=0, form='Q2'))
             rec.distinct.add(nm)
             if not o:
@@ -530,6 +550,26 @@ def observe(case, kwargs, env, rq):
     kw = dict(kwargs)
     kind = kw.pop('kind')
     eao = lift.import_eao()
+    if kind == 'prices':
+        failing = []
+        for tz in (None, 'CET'):
+            tg = shapes.grid(4, 'h', 'h', tz)
+            p = np.array([1.5, 2.5, 4.0, 8.0]); q = np.array([3.0, 1.0, 2.0, 7.0])
+            data = {'arrays': lambda: {'p': p, 'q': q}, 'gridded_frame': lambda: tg.prices_to_grid({'p': p, 'q': q}),
+                    'frame_int_index': lambda: pd.DataFrame({'p': p, 'q': q}, index=np.arange(4)),
+                    'frame_float_index': lambda: pd.DataFrame({'p': p, 'q': q}, index=np.arange(4) * 1.0),
+                    'frame_rows_selected_by_mask': lambda: pd.DataFrame({'p': list(p) + [0.0], 'q': list(q) + [0.0]})[np.array([True] * 4 + [False])],
+                    'dict_of_lists': lambda: {'p': list(p), 'q': list(q)}}
+            for label, mk in data.items():
+                try:
+                    o3 = tg.prices_to_grid(mk())
+                    ok3 = list(o3.index) == list(tg.timepoints) and list(o3['p'].values) == list(p) and list(o3['q'].values) == list(q)
+                    detail = '' if ok3 else 'p becomes %s' % list(o3['p'].values)
+                except Exception as ex:  # noqa: BLE001
+                    ok3, detail = False, '%s: %s' % (type(ex).__name__, str(ex)[:80])
+                if not ok3:
+                    failing.append('%s_unchanged/%s: %s' % (label, tz, detail))
+        return dict(failing=failing)
     if kind == 'forms':
         from .. import obs
         D = lift.Domain(theta=env)
@@ -627,12 +667,15 @@ def observe(case, kwargs, env, rq):
         tg.timepoints = pd.DatetimeIndex(pts); tg.T = T; tg.I = np.arange(T)
         tg.dt = np.array([float(env.get('dt%d' % i, 1.0)) for i in range(T)]); tg.Dt = np.cumsum(tg.dt)
         tg.start = pts[0]; tg.end = tm('tend')          # every attribute a real grid carries (as in the lifted run)
-        v = [float(env.get('v%d' % k, k + 1.0)) for k in range(2)]
-        if form == 'explicit':
-            inp = {'start': [tm('s0'), tm('s1')], 'end': [tm('e0'), tm('e1')], 'values': v}
-            iv = list(zip(inp['start'], inp['end'], v))
+        v = [float(env.get('v%d' % k, k + 1.0)) for k in range(3)]
+        if form == 'implicit3':
+            inp = {'start': [tm('s0'), tm('s1'), tm('s2')], 'values': v}
+            iv = [(tm('s0'), tm('s1'), v[0]), (tm('s1'), tm('s2'), v[1]), (tm('s2'), tm('s2') + 2 * (tm('s2') - tm('s1')), v[2])]
+        elif form == 'explicit':
+            inp = {'start': [tm('s0'), tm('s1')], 'end': [tm('e0'), tm('e1')], 'values': v[:2]}
+            iv = list(zip(inp['start'], inp['end'], v[:2]))
         elif form == 'implicit':
-            inp = {'start': [tm('s0'), tm('s1')], 'values': v}
+            inp = {'start': [tm('s0'), tm('s1')], 'values': v[:2]}
             iv = [(tm('s0'), tm('s1'), v[0]), (tm('s1'), tm('s1') + 2 * (tm('s1') - tm('s0')), v[1])]
         elif form == 'single':
             inp = {'start': [tm('s0')], 'values': v[:1]}
@@ -669,6 +712,9 @@ def judge(case, kwargs, cand, ans):
         return None, ans['error']
     o = ans['obs']
     k = info.get('kind')
+    if k == 'prices':
+        mine = [f for f in o['failing'] if f.startswith(cand['name'])]
+        return (True, 'already gridded price data are changed: %s' % mine[0]) if mine else (False, 'passes through unchanged on the unshimmed code')
     if k == 'forms':
         from .. import replay
         d = replay.diff(o['form'], o['plain'])
